@@ -24,7 +24,12 @@ func (e *NodeErr) Error() string { return "verif-node-fail:" + strconv.FormatUin
 type Recorder struct {
 	mu     sync.Mutex
 	Events []Event
+	Over   bool // some lambda saw an input larger than SizeBudget: the case is dropped (class "budget")
 }
+
+// SizeBudget bounds the size of the values a case may build (cyclic graphs with fan-in double them
+// in every superstep); a run that exceeds it is aborted and not sent to the model.
+const SizeBudget = 3000
 
 func (r *Recorder) Rec(path []uint64, in M) {
 	v := FromGo(in)
@@ -95,6 +100,12 @@ func (b *builder) lambda(path []uint64) *compose.Lambda {
 		}
 	}
 	body := Body(func(ctx context.Context, in M) (M, error) {
+		if SizeOfGo(in) > SizeBudget {
+			b.rec.mu.Lock()
+			b.rec.Over = true
+			b.rec.mu.Unlock()
+			return nil, errors.New("verif-size-budget")
+		}
 		b.rec.Rec(path, in)
 		if len(fails) > 0 {
 			sz := SizeOfGo(in)
@@ -529,7 +540,12 @@ func Invoke(ctx context.Context, bt *Built, input *Val, o RunOpts) *Obs {
 		}
 	}
 	obs := &Obs{Log: bt.Rec.Snapshot()}
+	bt.Rec.mu.Lock()
+	over := bt.Rec.Over
+	bt.Rec.mu.Unlock()
 	switch {
+	case over:
+		obs.Class = "budget"
 	case res.p != nil:
 		obs.Class = "panic"
 		obs.ErrMsg = fmt.Sprint(res.p)
